@@ -560,6 +560,57 @@ def masked_body(c):
     return ok(nontrivial=True, key=json.dumps([idiom, mode, list(shape), m.tolist()]), labels=["masked", "idiom=" + idiom, "mode=" + mode], sample=sample)
 
 
+def aliased_body(c):
+    """A container argument that holds the SAME nested container object at two positions (`[(W, b)] * 2`, `{"a": sub, "b": sub}`): the two
+    positions are different arguments of the function.  The function depends on the first differentiably and on the second only through
+    floor / comparisons: the second position's gradient is an exact zero, the first's is not disturbed by it."""
+    import autograd
+    import autograd.numpy as anp
+
+    vseed = c.seed()
+    (W, b), _ = values.generic(vseed, [(2, 3), (3,)], 0.3, 2.7, avoid=(1.0, 2.0))
+    sub_kind = c.choice(["tuple", "list", "dict"])
+    sub = (W, b) if sub_kind == "tuple" else ([W, b] if sub_kind == "list" else {"W": W, "b": b})
+    outer = c.choice(["list_times_2", "tuple_pair", "dict_pair", "nested_pair"])
+    params = {"list_times_2": lambda: [sub] * 2, "tuple_pair": lambda: (sub, sub), "dict_pair": lambda: {"a": sub, "b": sub}, "nested_pair": lambda: (sub, [sub, 1.5])}[outer]()
+    getW = (lambda s_: s_["W"]) if sub_kind == "dict" else (lambda s_: s_[0])
+    getb = (lambda s_: s_["b"]) if sub_kind == "dict" else (lambda s_: s_[1])
+    first = {"list_times_2": lambda p: p[0], "tuple_pair": lambda p: p[0], "dict_pair": lambda p: p["a"], "nested_pair": lambda p: p[0]}[outer]
+    second = {"list_times_2": lambda p: p[1], "tuple_pair": lambda p: p[-1], "dict_pair": lambda p: p["b"], "nested_pair": lambda p: p[1][0]}[outer]
+    mode = c.choice(["grad", "value_and_grad", "make_vjp", "jvp_second"])
+    sample = {"sub": sub_kind, "outer": outer, "mode": mode, "vseed": vseed}
+    c.features.update(outer=outer, sub=sub_kind, mode=mode)
+
+    def f(p):
+        s1, s2 = first(p), second(p)
+        return anp.sum(getW(s1) * anp.floor(getW(s2))) + anp.sum(getb(s1) * (getb(s2) > 1.2))
+
+    wantW, wantb = onp.floor(W), (b > 1.2) * 1.0
+    bucket = lambda k: f"C14|aliased|{outer}|{k}"
+    try:
+        if mode == "jvp_second":
+            # a direction that moves only the second position
+            zero_sub = (onp.zeros_like(W), onp.zeros_like(b)) if sub_kind == "tuple" else ([onp.zeros_like(W), onp.zeros_like(b)] if sub_kind == "list" else {"W": onp.zeros_like(W), "b": onp.zeros_like(b)})
+            one_sub = (onp.ones_like(W), onp.ones_like(b)) if sub_kind == "tuple" else ([onp.ones_like(W), onp.ones_like(b)] if sub_kind == "list" else {"W": onp.ones_like(W), "b": onp.ones_like(b)})
+            tang = {"list_times_2": lambda: [zero_sub, one_sub], "tuple_pair": lambda: (zero_sub, one_sub), "dict_pair": lambda: {"a": zero_sub, "b": one_sub},
+                    "nested_pair": lambda: (zero_sub, [one_sub, 0.0])}[outer]()
+            t = autograd.make_jvp(f)(params)(tang)[1]
+            if not (onp.shape(t) == () and float(t) == 0.0):
+                return fail("not_exact_zero", f"tangent {t!r} for a direction that moves only the position the function reads through floor / comparisons", bucket("fwd"), sample=sample)
+            return ok(nontrivial=True, key=json.dumps([sub_kind, outer, mode]), labels=["aliased", "mode=fwd"], sample=sample)
+        g = autograd.grad(f)(params) if mode == "grad" else (autograd.value_and_grad(f)(params)[1] if mode == "value_and_grad" else autograd.make_vjp(f)(params)[0](1.0))
+    except Exception as e:
+        if not from_autograd(e):
+            raise
+        return fail("exception_for_constant", describe_exc(e), bucket("exception"), sample=sample)
+    g1, g2 = first(g), second(g)
+    if not (onp.array_equal(onp.asarray(getW(g2)), onp.zeros_like(W)) and onp.array_equal(onp.asarray(getb(g2)), onp.zeros_like(b))):
+        return fail("not_exact_zero", f"the position read only through floor / comparisons has gradient {onp.asarray(getW(g2)).tolist()}, {onp.asarray(getb(g2)).tolist()}", bucket("second"), sample=sample)
+    if not (onp.allclose(onp.asarray(getW(g1)), wantW, rtol=0, atol=1e-13) and onp.allclose(onp.asarray(getb(g1)), wantb, rtol=0, atol=1e-13)):
+        return fail("wrong_value", f"the differentiable position has gradient {onp.asarray(getW(g1)).tolist()} instead of floor(W) = {wantW.tolist()}", bucket("first"), sample=sample)
+    return ok(nontrivial=True, key=json.dumps([sub_kind, outer, mode]), labels=["aliased", "mode=" + mode], sample=sample)
+
+
 _DISCRETE = []
 
 
@@ -673,6 +724,7 @@ PROP = Prop("C14", [
     Test("nograd_set", nograd_body, quick=8000, thorough=40000, shard_size=400),
     Test("masked_branches", masked_body, quick=1500, thorough=10000, shard_size=250),
     Test("discrete_namespace", discrete_body, quick=1500, thorough=8000, shard_size=250),
+    Test("aliased_containers", aliased_body, quick=600, thorough=4000, shard_size=150),
 ], RULE, assumptions=[
     "raw NumPy decides local constancy and the reference value/type of every non-differentiable function",
 ], finalize=finalize)
